@@ -98,10 +98,11 @@ public:
     {
       if(data->type != textType || data->ref > 1)
       {
-        clear();
-        data = (Data*)new char[sizeof(Data) + sizeof(String)];
-        String* string = (String*)(data + 1);
+        Data* newData = (Data*)new char[sizeof(Data) + sizeof(String)];
+        String* string = (String*)(newData + 1);
         new (string) String(other);
+        clear();
+        data = newData;
         data->type = textType;
         data->ref = 1;
       }
